@@ -125,6 +125,8 @@ impl ProtocolState {
         // W10/W11: per-connection data exists in the states that read it
         &&& ((self.state == ProtocolStateType::Connected || self.state == ProtocolStateType::PendingDisconnect) ==> self.current_settings is Some)
         &&& (self.state == ProtocolStateType::PendingConnack ==> self.connack_timeout_timepoint is Some)
+        // W13: nothing is being encoded once the DISCONNECT has gone out
+        &&& (self.state == ProtocolStateType::PendingDisconnect ==> self.current_operation is None)
     }
 
     // W5 (kept separate: see finding F-TIMEOUT-CURRENT)
